@@ -24,8 +24,14 @@ static void *c16_blob(void)
 #define realloc(p, n)  (vg_allocs++, realloc((p), (n)))
 #define strdup(s)      (vg_allocs++, strdup(s))
 
-#define C16_PRE()  do { libast_debug_level = nondet_uint(); vg_k = nondet_size_t(); \
+#define C16_PRE()  do { libast_debug_level = VND(uint, libast_debug_level); vg_k = VND(size_t, vg_k); \
                         __CPROVER_assume(vg_k < C16_BLOB); vg_allocs = 0; } while (0)
+/* an arbitrary scalar argument */
+#ifdef VERIF_NATIVE
+# define C16_ARB(type, name) type name = (type) vn_get(#name, 0)
+#else
+# define C16_ARB(type, name) type name
+#endif
 #define C16_UNCHANGED(b) __CPROVER_assert(((unsigned char *) (b))[vg_k] == 0, "C16 no effect: other argument " #b " unchanged")
 #define C16_POST() __CPROVER_assert(vg_allocs == 0, "C16 no allocation on the NULL path")
 #endif
